@@ -296,8 +296,13 @@ def vars_created(h, s, I, n0, nv0, lower, upto_job=None, upto_pos=None):
 
 def only_ops_are_keys(h, s, I):
     S = Sol(h, s)
-    x = bv("kx")
-    return forall([x], imp(S.has(x), Inst(h, I).is_op(x)), patterns=[z3.Select(h.get("$$_operations_start#has", s), x)])
+    x, q = bv("kx"), bv("kq")
+    return z3.And(
+        forall([x], imp(S.has(x), Inst(h, I).is_op(x)), patterns=[z3.Select(h.get("$$_operations_start#has", s), x)]),
+        forall([q], imp(rng(q, 0, h.len(S.keys)), z3.And(
+            S.has(h.at(S.keys, q)), Inst(h, I).is_op(h.at(S.keys, q)),
+            Inst(h, I).cumL(Inst(h, I).jid(h.at(S.keys, q))) + Inst(h, I).pos(h.at(S.keys, q)) == q)),
+            patterns=[h.at(S.keys, q)]))
 
 
 def records_before_unchanged(h0, h, M, n0):
@@ -326,7 +331,11 @@ def inst_pre(h, I):
         ("inst-index-order", forall([j, bv("p"), bv("j2")], imp(
             z3.And(0 <= j, j < bv("j2"), bv("j2") <= it.J, 0 <= bv("p"), bv("p") < it.L(j)),
             z3.And(it.cumL(j) + bv("p") < it.cumL(bv("j2")), it.cumL(j) + bv("p") - j <= it.cumL(bv("j2")) - bv("j2"))),
-            patterns=[order_pattern]))]
+            patterns=[order_pattern])),
+        # ... and against the totals (single trigger: the operation)
+        ("inst-index-bound", forall([j, p_], imp(z3.And(rng(j, 0, it.J), rng(p_, 0, it.L(j))), z3.And(
+            it.cumL(j) + p_ < it.N, it.cumL(j) + p_ - j <= it.N - it.J, it.cumL(j) >= j, it.cumL(j) + it.L(j) <= it.N)),
+            patterns=[t_op.arg(0) if False else it.op(j, p_)]))]
 
 
 def model_frame(c, h=None):
@@ -370,6 +379,7 @@ class CreateVariables(Contract):
             ("only-operations-are-keys", only_ops_are_keys(h, s, I)),
             ("earlier-constraints-untouched", records_before_unchanged(h0, h, S0.M, S0.store.n)),
             ("same-model", z3.And(S.M == S0.M, S.keys == S0.keys, h.get("$objective", S.M) == h0.get("$objective", S.M))),
+            ("instance-untouched", Inst(h, I).J == Inst(h0, I).J),
         ]
 
     @property
@@ -465,10 +475,11 @@ class _ModelStep(Contract):
         S0, S = Sol(h0, s), Sol(h, s)
         return [("earlier-constraints-untouched", records_before_unchanged(h0, h, S0.M, S0.store.n)),
                 ("same-model-and-variables", z3.And(S.M == S0.M, S.keys == S0.keys,
-                                                    h.get("$nvars", S.M) >= h0.get("$nvars", S.M)))]
+                                                    h.get("$nvars", S.M) >= h0.get("$nvars", S.M))),
+                ("instance-untouched", Inst(h, c["instance"]).J == Inst(h0, c["instance"]).J)]
 
 
-_ARITH = ["inst-refs", "inst-jobs", "inst-cum", "inst-cum-at-least-one-per-job", "inst-index-order"]
+_ARITH = ["inst-refs", "inst-jobs", "inst-cum", "inst-cum-at-least-one-per-job", "inst-index-order", "inst-index-bound"]
 
 
 @register
@@ -525,7 +536,7 @@ def objective_set(h, s, I, n3):
     T = total(h, I)
     return z3.And(
         var_ok(h, S.M, mk, T, I), ck == MAXEQ, ca == mk, cb > 0, cb < h.alloc, h.len(cb) == it.N,
-        forall([q], imp(rng(q, 0, it.N), h.at(cb, q) == S.ev(h.at(S.keys, q))), patterns=[h.at(cb, q)]),
+        forall([q], imp(rng(q, 0, it.N), h.at(cb, q) == S.ev(h.at(S.keys, q))), patterns=[h.at(cb, q), h.at(S.keys, q)]),
         h.get("$objective", S.M) == mk)
 
 
@@ -542,4 +553,642 @@ class SetObjective(_ModelStep):
         h0, h, s, I = c.h0, c.h, c["self"], c["instance"]
         S0, S = Sol(h0, s), Sol(h, s)
         return [("makespan-variable=max-of-all-end-variables-and-is-minimised", objective_set(h, s, I, S0.store.n)),
-                ("one-more-constraint", S.store.n == S0.store.n + 1)] + self.kept(c)
+                ("one-more-constraint", z3.And(S.store.n == S0.store.n + 1,
+                                               h.get("$nvars", S.M) == h0.get("$nvars", S.M) + 1))] + self.kept(c)
+
+
+# ---------------------------------------------------------------------------
+# machine constraints
+# ---------------------------------------------------------------------------
+def non_flexible(h, I):
+    it = Inst(h, I)
+    j, p = bv("j"), bv("p")
+    return ("non-flexible-instance", forall([j, p], imp(z3.And(rng(j, 0, it.J), rng(p, 0, it.L(j))),
+                                                        it.nmach(it.op(j, p)) == 1), patterns=[it.op(j, p)]))
+
+
+def mach0(h, o):
+    return h.at(h.get("machines", o), 0)
+
+
+def ivpos(h, s, o):
+    return z3.Select(h.get("$$iv_pos", s), o)
+
+
+def ivop(h, L, idx):
+    return z3.Select(h.get("$$iv_op", L), idx)
+
+
+def machine_constraints(h, s, I, n2, upto=None):
+    """record n2 + m (m < upto) is a no-overlap constraint over exactly the intervals (start, duration, end) of the
+    operations of machine m; ghost maps iv_pos (operation -> index in its machine's interval list) and iv_op (list,
+    index -> operation) are each other's inverse"""
+    S = Sol(h, s)
+    it = Inst(h, I)
+    j, p, m, q = bv("j"), bv("p"), bv("m"), bv("q")
+    NM = it.NM if upto is None else upto
+    o = it.op(j, p)
+    nol = lambda t: z3.Select(h.get("$$no_list", s), t)  # noqa: E731   (ghost: machine -> its interval list)
+    L = nol(mach0(h, o))
+    iv = h.at(L, ivpos(h, s, o))
+    Lm = nol(m)
+    o2 = ivop(h, Lm, q)
+    dom = z3.And(rng(j, 0, it.J), rng(p, 0, it.L(j)), mach0(h, o) < NM)
+    return z3.And(
+        forall([m], imp(rng(m, 0, NM), z3.And(S.store.is_rec(n2 + m, NOOVERLAP, Lm), Lm > I, Lm < h.alloc)),
+               patterns=[nol(m)]),
+        forall([j, p], imp(dom, z3.And(
+            rng(ivpos(h, s, o), 0, h.len(L)), ivop(h, L, ivpos(h, s, o)) == o, iv > I, iv < h.alloc,
+            h.get("$iv_start", iv) == S.sv(o), h.get("$iv_size", iv) == it.dur(o), h.get("$iv_end", iv) == S.ev(o))),
+            patterns=[it.op(j, p)]),
+        forall([m, q], imp(z3.And(rng(m, 0, NM), rng(q, 0, h.len(Lm))),
+                           z3.And(it.is_op(o2), mach0(h, o2) == m, ivpos(h, s, o2) == q)),
+               patterns=[ivop(h, Lm, q)]))
+
+
+@register
+class AddMachineConstraints(_ModelStep):
+    name = "ORToolsSolver._add_machine_constraints"
+
+    def requires(self, c):
+        return _ModelStep.requires(self, c) + [non_flexible(c.h0, c["instance"])]
+
+    def modifies(self, c):
+        fr = _ModelStep.modifies(self, c)
+        fr.fields["$$iv_pos"] = [c["self"]]
+        fr.fields["$$no_list"] = [c["self"]]
+        fr.fields["$$mo_pos"] = [c["self"]]
+        fr.fields["$$iv_op"] = "ALL"
+        fr.fields["$$mo_op"] = "ALL"
+        return fr
+
+    def ensures(self, c):
+        h0, h, s, I = c.h0, c.h, c["self"], c["instance"]
+        S0, S = Sol(h0, s), Sol(h, s)
+        it = Inst(h0, I)
+        return [("one-no-overlap-constraint-per-machine-over-exactly-the-intervals-of-its-operations",
+                 machine_constraints(h, s, I, S0.store.n)),
+                ("one-constraint-per-machine", S.store.n == S0.store.n + it.NM),
+                ("objective-and-variables-untouched", z3.And(h.get("$objective", S.M) == h0.get("$objective", S.M),
+                                                             h.get("$nvars", S.M) == h0.get("$nvars", S.M)))] + self.kept(c)
+
+    @property
+    def ghost_after(self):
+        def appended(c, st):
+            h, s = st.heap, c["self"]
+            o = st.env["operation"].t
+            MO = st.env["machines_operations"]
+            row = h.at(MO, mach0(h, o))
+            n = h.len((row, "c"))
+            st.heap = h.put("$$mo_pos", s, z3.Store(h.get("$$mo_pos", s), o, n - 1)) \
+                .put("$$mo_op", row, z3.Store(h.get("$$mo_op", row), n - 1, o))
+
+        def interval_added(c, st):
+            # the interval list mirrors the machine's list of (variables, duration) entries index by index
+            h, s = st.heap, c["self"]
+            IV = st.env["intervals"].t
+            ops = st.env["operations"].t
+            n = h.len((IV, "c"))
+            o = z3.Select(h.get("$$mo_op", ops), n - 1)
+            st.heap = h.put("$$iv_pos", s, z3.Store(h.get("$$iv_pos", s), o, n - 1)) \
+                .put("$$iv_op", IV, z3.Store(h.get("$$iv_op", IV), n - 1, o))
+        def no_overlap_added(c, st):
+            h, s = st.heap, c["self"]
+            st.heap = h.put("$$no_list", s, z3.Store(h.get("$$no_list", s), st.env["machine_id"].t, st.env["intervals"].t))
+        return {"machines_operations[operation.machine_id].append((self._operations_start[operation], operation.duration))": appended,
+                "intervals.append(interval_var)": interval_added, "self.model.AddNoOverlap(intervals)": no_overlap_added}
+
+    # -- what the first pair of loops builds ------------------------------------------------------------------
+    @staticmethod
+    def collected(h, s, I, MO, A0, upto_job=None, upto_pos=None):
+        """MO[m] lists, in job-major order, one entry ((start, end), duration) per operation of machine m that lies
+        before (upto_job, upto_pos); mo_pos / mo_op are each other's inverse"""
+        S = Sol(h, s)
+        it = Inst(h, I)
+        j, p, m, q = bv("j"), bv("p"), bv("m"), bv("q")
+        o = it.op(j, p)
+        dom = z3.And(rng(j, 0, it.J), rng(p, 0, it.L(j)))
+        before = lambda jj, pp: z3.BoolVal(True) if upto_job is None else (  # noqa: E731
+            jj < upto_job if upto_pos is None else z3.Or(jj < upto_job, z3.And(jj == upto_job, pp < upto_pos)))
+        row = lambda t: h.at(MO, t)  # noqa: E731
+        pos = lambda x: z3.Select(h.get("$$mo_pos", s), x)  # noqa: E731
+        opat = lambda r, t: z3.Select(h.get("$$mo_op", r), t)  # noqa: E731
+        ent = h.at(row(m), q)
+        inner = h.get("tup#0", ent)
+        o2 = opat(row(m), q)
+        return z3.And(
+            h.len(MO) == it.NM, MO >= A0, MO < h.alloc,
+            forall([m], imp(rng(m, 0, it.NM), z3.And(row(m) > MO, row(m) < h.alloc, h.len(row(m)) >= 0)), patterns=[h.at(MO, m)]),
+            forall([m, bv("m2")], imp(z3.And(rng(m, 0, it.NM), rng(bv("m2"), 0, it.NM), row(m) == row(bv("m2"))), m == bv("m2")),
+                   patterns=[z3.MultiPattern(h.at(MO, m), h.at(MO, bv("m2")))]),
+            forall([j, p], imp(z3.And(dom, before(j, p)), z3.And(
+                rng(pos(o), 0, h.len(row(mach0(h, o)))), opat(row(mach0(h, o)), pos(o)) == o)), patterns=[it.op(j, p)]),
+            forall([m, q], imp(z3.And(rng(m, 0, it.NM), rng(q, 0, h.len(row(m)))), z3.And(
+                it.is_op(o2), mach0(h, o2) == m, pos(o2) == q, before(it.jid(o2), it.pos(o2)),
+                ent > MO, ent < h.alloc, inner > MO, inner < h.alloc, inner != ent,
+                h.get("tup#0", inner) == S.sv(o2), h.get("tup#1", inner) == S.ev(o2), h.get("tup#1", ent) == it.dur(o2))),
+                patterns=[opat(row(m), q), h.at(row(m), q)]))
+
+    @property
+    def loops(self):
+        def base(k):
+            h0, h, s = k.h0, k.h, k["self"]
+            S0, S = Sol(h0, s), Sol(h, s)
+            return [("same-model", z3.And(S.M == S0.M, S.keys == S0.keys, h.get("$objective", S.M) == h0.get("$objective", S.M),
+                                          h.get("$nvars", S.M) == h0.get("$nvars", S.M))),
+                    ("earlier-constraints-untouched", records_before_unchanged(h0, h, S0.M, S0.store.n))]
+
+        def l0(k):
+            return base(k) + [("count", Sol(k.h, k["self"]).store.n == Sol(k.h0, k["self"]).store.n),
+                              ("collected-so-far", self.collected(k.h, k["self"], k["instance"], k.v("machines_operations"),
+                                                                  k.h0.alloc, k.i))]
+
+        def l1(k):
+            it = Inst(k.h0, k["instance"])
+            j0 = k.outer[-1]
+            return base(k) + [("job", z3.And(k.v("job") == it.job(j0), rng(j0, 0, it.J))),
+                              ("count", Sol(k.h, k["self"]).store.n == Sol(k.h0, k["self"]).store.n),
+                              ("collected-so-far", self.collected(k.h, k["self"], k["instance"], k.v("machines_operations"),
+                                                                  k.h0.alloc, j0, k.i))]
+
+        def l2(k):
+            h0, h, s, I = k.h0, k.h, k["self"], k["instance"]
+            S0, S = Sol(h0, s), Sol(h, s)
+            return base(k) + [("count", S.store.n == S0.store.n + k.i),
+                              ("all-collected", self.collected(h, s, I, k.v("machines_operations"), h0.alloc)),
+                              ("constraints-so-far", machine_constraints(h, s, I, S0.store.n, k.i))]
+
+        def l3(k):
+            h0, h, s, I = k.h0, k.h, k["self"], k["instance"]
+            S0, S = Sol(h0, s), Sol(h, s)
+            it = Inst(h0, I)
+            m0 = k.outer[-1]
+            MO, IV, ops = k.v("machines_operations"), k.v("intervals"), k.v("operations")
+            q = bv("q")
+            o = z3.Select(h.get("$$mo_op", ops), q)
+            iv = h.at(IV, q)
+            return base(k) + [
+                ("count", S.store.n == S0.store.n + m0),
+                ("row", z3.And(ops == h.at(MO, m0), k.v("machine_id") == m0, rng(m0, 0, it.NM), IV > MO, IV < h.alloc,
+                               h.len(IV) == k.i, k.n == h.len(ops))),
+                ("all-collected", self.collected(h, s, I, MO, h0.alloc)),
+                ("constraints-so-far", machine_constraints(h, s, I, S0.store.n, m0)),
+                ("earlier-interval-lists-are-older", forall([bv("m")], imp(
+                    rng(bv("m"), 0, m0), z3.Select(h.get("$$no_list", s), bv("m")) < IV),
+                    patterns=[z3.Select(h.get("$$no_list", s), bv("m"))])),
+                ("intervals-so-far", forall([q], imp(rng(q, 0, k.i), z3.And(
+                    iv > MO, iv < h.alloc, ivpos(h, s, o) == q, ivop(h, IV, q) == o,
+                    h.get("$iv_start", iv) == S.sv(o), h.get("$iv_size", iv) == it.dur(o), h.get("$iv_end", iv) == S.ev(o))),
+                    patterns=[h.at(IV, q), z3.Select(h.get("$$mo_op", ops), q), ivop(h, IV, q)])),
+            ]
+
+        def mod_for(which):
+            def mod(k):
+                S = Sol(k.h0, k["self"])
+                f = {n: [S.M] for n in MODEL_FIELDS}
+                f.update({"$$iv_pos": [k["self"]], "$$mo_pos": [k["self"]], "$$no_list": [k["self"]], "$$iv_op": "ALL",
+                          "$$mo_op": "ALL"})
+                MO = k.envl["machines_operations"].t
+                if which == "collect":       # the rows of MO grow; MO itself and older lists do not change
+                    lists = lambda l: l > MO  # noqa: E731
+                elif which == "machines":    # only lists created inside the loop (the interval lists)
+                    A = k.hl.alloc
+                    lists = lambda l: l >= A  # noqa: E731
+                else:                        # the interval list of the current machine
+                    IV = k.envl["intervals"].t
+                    lists = lambda l: l == IV  # noqa: E731
+                return Frame(fields=f, lists=lists, alloc_objects=NEW_OBJ_FIELDS + ["$type", "$$iv_op", "$$mo_op"],
+                             alloc_lists=True)
+            return mod
+        return {0: LoopSpec("for job in instance.jobs", l0, mod_for("collect")),
+                1: LoopSpec("for operation in job", l1, mod_for("collect")),
+                2: LoopSpec("for (machine_id, operations) in enumerate(machines_operations)", l2, mod_for("machines")),
+                3: LoopSpec("for ((start_var, end_var), duration) in operations", l3, mod_for("intervals"))}
+
+
+# ---------------------------------------------------------------------------
+# composition: the whole model
+# ---------------------------------------------------------------------------
+@register
+class AddConstraints(_ModelStep):
+    name = "ORToolsSolver._add_constraints"
+
+    def requires(self, c):
+        return _ModelStep.requires(self, c) + [non_flexible(c.h0, c["instance"])]
+
+    def modifies(self, c):
+        return AddMachineConstraints.modifies(self, c)
+
+    _K = _ARITH + ["solver", "earlier-constraints-untouched", "same-model-and-variables", "one-constraint-per-successive-pair",
+                   "one-constraint-per-machine", "objective-and-variables-untouched", "instance-untouched"]
+    relevant_strict = {
+        "job-precedence-constraints": _K + ["end-of-predecessor<=start-of-successor-for-every-pair-of-a-job"],
+        "machine-no-overlap-constraints": _K + ["one-no-overlap-constraint-per-machine-over-exactly-the-intervals-of-its-operations"],
+        "nothing-else-added": _K,
+    }
+
+    def ensures(self, c):
+        h0, h, s, I = c.h0, c.h, c["self"], c["instance"]
+        S0, S = Sol(h0, s), Sol(h, s)
+        it = Inst(h0, I)
+        n0 = S0.store.n
+        return [("job-precedence-constraints", job_constraints(h, s, I, n0)),
+                ("machine-no-overlap-constraints", machine_constraints(h, s, I, n0 + it.N - it.J)),
+                ("nothing-else-added", S.store.n == n0 + it.N - it.J + it.NM),
+                ("objective-and-variables-untouched", z3.And(h.get("$objective", S.M) == h0.get("$objective", S.M),
+                                                             h.get("$nvars", S.M) == h0.get("$nvars", S.M)))] + self.kept(c)
+
+
+def model_is_jssp(h, s, I, A0):
+    """the constraint store of s.model is the disjunctive model of instance I, nothing more"""
+    S = Sol(h, s)
+    it = Inst(h, I)
+    N, J, NM = it.N, it.J, it.NM
+    return [
+        ("a-new-model-solver-and-variable-map", z3.And(S.M >= A0, S.M < h.alloc, S.solver >= A0, S.solver < h.alloc,
+                                                       S.solver != S.M, S.keys >= A0, S.keys < h.alloc,
+                                                       h.get("$epoch", S.solver) == 0)),
+        ("variables-and-end=start+duration", vars_created(h, s, I, 0, 0, I)),
+        ("only-operations-have-variables", z3.And(h.len(S.keys) == N, only_ops_are_keys(h, s, I))),
+        ("job-precedence-constraints", job_constraints(h, s, I, N)),
+        ("machine-no-overlap-constraints", machine_constraints(h, s, I, 2 * N - J)),
+        ("makespan=max-of-ends-minimised", objective_set(h, s, I, 2 * N - J + NM)),
+        ("nothing-else-in-the-model", z3.And(S.store.n == 2 * N - J + NM + 1, h.get("$nvars", S.M) == 2 * N + 1)),
+    ]
+
+
+SOLVER_FIELDS = ["model", "solver", "_makespan"] + DICT_FIELDS
+GHOST_SOLVER = ["$$iv_pos", "$$mo_pos", "$$no_list"]
+
+
+def solver_frame(c, more=()):
+    s = c["self"]
+    f = {n: [s] for n in SOLVER_FIELDS + GHOST_SOLVER + list(more)}
+    f.update({"$$iv_op": "ALL", "$$mo_op": "ALL"})
+    return f
+
+
+@register
+class InitializeModel(Contract):
+    name = "ORToolsSolver._initialize_model"
+    properties = ("C03",)
+    params = {"self": REF("ORToolsSolver"), "instance": REF("JobShopInstance")}
+
+    def requires(self, c):
+        h, s, I = c.h0, c["self"], c["instance"]
+        return inst_pre(h, I) + [non_flexible(h, I), ("solver-object", z3.And(s > 0, s < h.alloc, I < h.alloc))]
+
+    def modifies(self, c):
+        return Frame(fields=solver_frame(c), alloc_objects=NEW_OBJ_FIELDS + ["$type", "$$iv_op", "$$mo_op"], alloc_lists=True)
+
+    def ensures(self, c):
+        return model_is_jssp(c.h, c["self"], c["instance"], c.h0.alloc)
+
+    _KEEP = _ARITH + ["earlier-constraints-untouched", "same-model-and-variables", "same-model", "nothing-else-added",
+                      "one-more-constraint", "one-constraint-per-operation", "objective-and-variables-untouched",
+                      "solver-object", "instance-untouched"]
+    _FRAME = ["earlier-constraints-untouched", "same-model-and-variables", "same-model", "nothing-else-added",
+              "one-more-constraint", "one-constraint-per-operation", "objective-and-variables-untouched", "solver-object",
+              "inst-refs", "inst-jobs", "instance-untouched", "inst-cum-at-least-one-per-job"]
+    relevant_strict = {
+        "variables-and-end=start+duration": _KEEP + ["two-variables-in-0..total-duration-and-end=start+duration-per-operation"],
+        "only-operations-have-variables": _KEEP + ["only-operations-are-keys"],
+        "job-precedence-constraints": _FRAME + ["job-precedence-constraints", "inst-index-bound"],
+        "machine-no-overlap-constraints": _FRAME + ["machine-no-overlap-constraints", "inst-ops", "inst-machines",
+                                                    "non-flexible-instance"],
+        "makespan=max-of-ends-minimised": _KEEP + ["makespan-variable=max-of-all-end-variables-and-is-minimised"],
+        "nothing-else-in-the-model": _KEEP,
+    }
+
+
+# ---------------------------------------------------------------------------
+# solving: [TRUSTED] meaning of a reported solution
+# ---------------------------------------------------------------------------
+SolStatus = z3.Function("SolStatus", I, I, I)      # (solver, solve epoch) -> status code reported
+
+
+def V(h, solver, v):
+    return SolValue(solver, h.get("$epoch", solver), v)
+
+
+@ext_method("CpSolver", "Solve", "solver.Solve(model) returns a status; when it is OPTIMAL or FEASIBLE, Value(v) satisfies every "
+                                 "constraint of the model (EQ, LE, pairwise disjointness of the intervals of each no-overlap "
+                                 "constraint and start + size == end for them, target = max of the list for max-equality) and "
+                                 "the bounds of every variable of the model; when it is OPTIMAL no assignment satisfying the "
+                                 "model has a smaller objective value (not used by any proof here)")
+def _solve(eng, e, st, obj):
+    out = []
+    for s, pos, kw in _each(eng, e, st):
+        if s.status != "run":
+            out.append((s, None))
+            continue
+        solver, M = obj.t, to_int(pos[0])
+        h = s.heap
+        ep = h.get("$epoch", solver) + 1
+        h = h.put("$epoch", solver, ep).put("$solved", solver, M)
+        s.heap = h
+        status = SolStatus(solver, ep)
+        good = z3.Or(status == OPTIMAL, status == FEASIBLE)
+        val = lambda v: SolValue(solver, ep, v)  # noqa: E731
+        k, q1, q2, x = bv("sk"), bv("sq1"), bv("sq2"), bv("sv")
+        ck, ca, cb, co = Store(h, M).rec(k)
+        i1, i2 = h.at(ca, q1), h.at(ca, q2)
+        ist, ien, isz = (lambda i: h.get("$iv_start", i)), (lambda i: h.get("$iv_end", i)), (lambda i: h.get("$iv_size", i))
+        holds = z3.And(
+            imp(ck == EQ, val(ca) == val(cb) + co),
+            imp(ck == LE, val(ca) <= val(cb) + co),
+            imp(ck == NOOVERLAP, z3.And(
+                forall([q1, q2], imp(z3.And(0 <= q1, q1 < q2, q2 < h.len(ca)),
+                                     z3.Or(val(ien(i1)) <= val(ist(i2)), val(ien(i2)) <= val(ist(i1)))),
+                       patterns=[z3.MultiPattern(h.at(ca, q1), h.at(ca, q2))]),
+                forall([q1], imp(rng(q1, 0, h.len(ca)), val(ist(i1)) + isz(i1) == val(ien(i1))), patterns=[h.at(ca, q1)]))),
+            imp(ck == MAXEQ, z3.And(
+                forall([q1], imp(rng(q1, 0, h.len(cb)), val(ca) >= val(h.at(cb, q1))), patterns=[h.at(cb, q1)]),
+                imp(h.len(cb) > 0, z3.Exists([q1], z3.And(rng(q1, 0, h.len(cb)), val(ca) == val(h.at(cb, q1))))))))
+        s.assume(imp(good, forall([k], imp(rng(k, 0, h.get("$ncons", M)), holds),
+                                  patterns=[z3.Select(h.get("$$c_kind", M), k)])), "trusted:solution-satisfies-the-model")
+        s.assume(imp(good, forall([x], imp(z3.And(x > 0, h.get("$vmodel", x) == M),
+                                           z3.And(h.get("$lb", x) <= val(x), val(x) <= h.get("$ub", x))),
+                                  patterns=[val(x)])), "trusted:solution-within-bounds")
+        out.append((s, vint(status)))
+    return out
+
+
+@ext_method("CpSolver", "Value", "solver.Value(v) is the value of v in the solution found by the last Solve")
+def _value(eng, e, st, obj):
+    out = []
+    for s, pos, kw in _each(eng, e, st):
+        if s.status != "run":
+            out.append((s, None))
+            continue
+        out.append((s, vint(V(s.heap, obj.t, to_int(pos[0])))))
+    return out
+
+
+def solution_ok(h, s, I):
+    """what a reported solution means for the operations (derived in solve() from the model's content and the
+    trusted meaning of Solve)"""
+    S = Sol(h, s)
+    it = Inst(h, I)
+    val = lambda v: V(h, S.solver, v)  # noqa: E731
+    j, p, j2, p2 = bv("j"), bv("p"), bv("j2"), bv("p2")
+    o, o2 = it.op(j, p), it.op(j2, p2)
+    dom = z3.And(rng(j, 0, it.J), rng(p, 0, it.L(j)))
+    dom2 = z3.And(rng(j2, 0, it.J), rng(p2, 0, it.L(j2)))
+    mk = h.get("_makespan", s)
+    return [
+        ("sol-end=start+duration-and-start>=0", forall([j, p], imp(dom, z3.And(
+            val(S.sv(o)) >= 0, val(S.ev(o)) == val(S.sv(o)) + it.dur(o))), patterns=[it.op(j, p)])),
+        ("sol-job-precedence", forall([j, p], imp(z3.And(dom, p >= 1), val(S.ev(it.op(j, p - 1))) <= val(S.sv(o))),
+                                      patterns=[it.op(j, p)])),
+        ("sol-machines-disjoint", forall([j, p, j2, p2], imp(
+            z3.And(dom, dom2, o != o2, mach0(h, o) == mach0(h, o2)),
+            z3.Or(val(S.ev(o)) <= val(S.sv(o2)), val(S.ev(o2)) <= val(S.sv(o)))),
+            patterns=[z3.MultiPattern(it.op(j, p), it.op(j2, p2))])),
+        ("sol-makespan-is-the-largest-end", z3.And(
+            mk > 0, forall([j, p], imp(dom, val(mk) >= val(S.ev(o))), patterns=[it.op(j, p)]),
+            z3.Exists([bv("kq")], z3.And(rng(bv("kq"), 0, h.len(S.keys)), val(mk) == val(S.ev(h.at(S.keys, bv("kq")))))))),
+    ]
+
+
+def vars_of_ops(h, s, I):
+    S = Sol(h, s)
+    return [("solver", solver_wf(h, s)), ("instance-is-older-than-the-model", z3.And(I < S.M, S.keys > I))] + all_vars(h, s, I)
+
+
+# fields of the objects _create_schedule creates (ScheduledOperation, Schedule)
+SCHEDULE_OBJ_FIELDS = ["operation", "start_time", "_machine_id", "instance", "_schedule", "metadata", "$$cumS", "$type", "$$us_op"]
+
+
+def sched_pos(h, s, o):
+    return z3.Select(h.get("$$sch_pos", s), o)
+
+
+def schedule_of_solution(h, hs, s, I, r):
+    """the Schedule object r (heap h) places every operation once, on its machine, at the start time the solution
+    (solver state of heap hs) gives it; ghost witness sch_pos: operation -> index in its machine's list"""
+    S = Sol(hs, s)
+    it = Inst(hs, I)
+    SC = h.get("_schedule", r)
+    val = lambda v: V(hs, S.solver, v)  # noqa: E731
+    j, p, m, q = bv("j"), bv("p"), bv("m"), bv("q")
+    o = it.op(j, p)
+    x = h.at(h.at(SC, mach0(hs, o)), sched_pos(h, s, o))
+    y = h.at(h.at(SC, m), q)
+    oy = h.get("operation", y)
+    return z3.And(
+        h.get("instance", r) == I, SC > 0, h.len(SC) == it.NM,
+        forall([j, p], imp(z3.And(rng(j, 0, it.J), rng(p, 0, it.L(j))), z3.And(
+            rng(sched_pos(h, s, o), 0, h.len(h.at(SC, mach0(hs, o)))), h.get("operation", x) == o)), patterns=[it.op(j, p)]),
+        forall([m, q], imp(z3.And(rng(m, 0, it.NM), rng(q, 0, h.len(h.at(SC, m)))), z3.And(
+            y > 0, it.is_op(oy), mach0(hs, oy) == m, h.get("_machine_id", y) == m, sched_pos(h, s, oy) == q,
+            h.get("start_time", y) == val(S.sv(oy)))), patterns=[h.at(h.at(SC, m), q)]))
+
+
+@register
+class CreateSchedule(Contract):
+    name = "ORToolsSolver._create_schedule"
+    properties = ("C03",)
+    params = {"self": REF("ORToolsSolver"), "instance": REF("JobShopInstance"), "metadata": ANY}
+    ret = REF("Schedule")
+
+    def requires(self, c):
+        h, s, I = c.h0, c["self"], c["instance"]
+        return inst_pre(h, I) + [non_flexible(h, I)] + vars_of_ops(h, s, I) + solution_ok(h, s, I)
+
+    def modifies(self, c):
+        return Frame(fields={"$$sch_pos": [c["self"]], "$$us_pos": [c["self"]], "$$us_op": "ALL"},
+                     alloc_objects=SCHEDULE_OBJ_FIELDS, alloc_lists=True)
+
+    def ensures(self, c):
+        h0, h, s, I, r = c.h0, c.h, c["self"], c["instance"], c.result
+        from .core import sched_valid
+        return [("a-new-schedule", z3.And(r >= h0.alloc, r < h.alloc)),
+                ("every-operation-once-on-its-machine-at-its-solution-start", schedule_of_solution(h, h0, s, I, r)),
+                ("machine-lists-in-time-order-without-overlap", sched_valid(h, h.get("_schedule", r)))]
+
+
+def _bad(status):
+    return z3.Not(z3.Or(status == OPTIMAL, status == FEASIBLE))
+
+
+@register
+class Solve(Contract):
+    name = "ORToolsSolver.solve"
+    properties = ("C03",)
+    params = {"self": REF("ORToolsSolver"), "instance": REF("JobShopInstance")}
+    ret = REF("Schedule")
+
+    def requires(self, c):
+        h, s, I = c.h0, c["self"], c["instance"]
+        return inst_pre(h, I) + [non_flexible(h, I), ("solver-object", z3.And(s > 0, s < h.alloc, I < h.alloc))]
+
+    def raises(self, c):
+        # prophecy variable: whether the CP-SAT call of this solve() will report neither OPTIMAL nor FEASIBLE (resolved
+        # by the ghost statement after `status = self.solver.Solve(self.model)`)
+        return [("NoSolutionFoundError", "cp-sat-reported-neither-optimal-nor-feasible", c.h0.get("$no_solution", c["self"]) != 0)]
+
+    def exc_modifies(self, c, exc):
+        return self.modifies(c)
+
+    def modifies(self, c):
+        return Frame(fields=solver_frame(c, ["$$sch_pos", "$$us_pos", "$reported_makespan", "$reported_status"]) | {"$$us_op": "ALL"},
+                     alloc_objects=SCHEDULE_OBJ_FIELDS + NEW_OBJ_FIELDS + ["$$iv_op", "$$mo_op"], alloc_lists=True)
+
+    @property
+    def ghost_after(self):
+        def resolve(c, st):
+            # ghost assertion: what CpSolver.Solve was just called on is the freshly built disjunctive model of THIS instance
+            h, s, I = st.heap, c["self"], c["instance"]
+            S = Sol(h, s)
+            c.eng.oblige(st, "solve-is-called-on-the-model-just-built:" + "the-solver's-own-model",
+                         z3.And(h.get("$solved", S.solver) == S.M, h.get("$epoch", S.solver) == 1), "ghost-assert")
+            c.eng.oblige(st, "model-solved:a-new-model-solver-and-variable-map",
+                         z3.And(S.M >= c.h0.alloc, S.solver >= c.h0.alloc, S.keys >= c.h0.alloc), "ghost-assert")
+            for n_, p_ in model_is_jssp(h, s, I, c.h0.alloc)[1:]:
+                c.eng.oblige(st, "model-solved:" + n_, p_, "ghost-assert")
+            st.assume((c.h0.get("$no_solution", c["self"]) != 0) == _bad(st.env["status"].t), "prophecy:no-solution")
+
+        def reported(c, st):
+            md = st.env["metadata"].t
+            st.heap = st.heap.put("$reported_makespan", c["self"], to_int(md["makespan"])) \
+                .put("$reported_status", c["self"], st.env["status"].t)
+        return {"status = self.solver.Solve(self.model)": resolve,
+                "metadata = {'status': 'optimal' if status == cp_model.OPTIMAL else 'feasible', 'elapsed_time': elapsed_time, "
+                "'makespan': self.solver.Value(self._makespan), 'solved_by': 'ORToolsSolver'}": reported}
+
+    _MODEL = ["a-new-model-solver-and-variable-map", "variables-and-end=start+duration", "only-operations-have-variables",
+              "job-precedence-constraints", "machine-no-overlap-constraints", "makespan=max-of-ends-minimised",
+              "nothing-else-in-the-model", "solver-object"]
+    relevant_strict = dict.fromkeys(_MODEL, _MODEL + _ARITH + ["inst-ops", "inst-machines"])
+
+    def ensures(self, c):
+        h0, h, s, I, r = c.h0, c.h, c["self"], c["instance"], c.result
+        from .core import sched_valid
+        S = Sol(h, s)
+        it = Inst(h0, I)
+        SC = h.get("_schedule", r)
+        val = lambda v: V(h, S.solver, v)  # noqa: E731
+        j, p = bv("j"), bv("p")
+        o = it.op(j, p)
+        x = lambda jj, pp: h.at(h.at(SC, mach0(h0, it.op(jj, pp))), sched_pos(h, s, it.op(jj, pp)))  # noqa: E731
+        end = lambda y: h.get("start_time", y) + it.dur(h.get("operation", y))  # noqa: E731
+        rep = h.get("$reported_makespan", s)
+        m, q = bv("m"), bv("q")
+        y = h.at(h.at(SC, m), q)
+        return [
+            ("a-new-schedule", z3.And(r >= h0.alloc, r < h.alloc)),
+            ("complete:every-operation-once-on-its-machine", schedule_of_solution(h, h, s, I, r)),
+            ("machine-lists-in-time-order-without-overlap", sched_valid(h, SC)),
+            ("job-order-respected-and-no-negative-start", forall([j, p], imp(
+                z3.And(rng(j, 0, it.J), rng(p, 0, it.L(j))),
+                z3.And(h.get("start_time", x(j, p)) >= 0, imp(p >= 1, end(x(j, p - 1)) <= h.get("start_time", x(j, p))))),
+                patterns=[it.op(j, p)])),
+            ("reported-makespan-is-the-latest-end", z3.And(
+                forall([m, q], imp(z3.And(rng(m, 0, it.NM), rng(q, 0, h.len(h.at(SC, m)))), end(y) <= rep),
+                       patterns=[h.at(h.at(SC, m), q)]),
+                z3.Exists([m, q], z3.And(rng(m, 0, it.NM), rng(q, 0, h.len(h.at(SC, m))), end(y) == rep)))),
+        ]
+
+
+@register
+class SolverCall(Contract):
+    name = "ORToolsSolver.__call__"
+    properties = ("C03",)
+    params = Solve.params
+    ret = REF("Schedule")
+
+    def requires(self, c):
+        return Solve.requires(self, c)
+
+    def raises(self, c):
+        return Solve.raises(self, c)
+
+    def exc_modifies(self, c, exc):
+        return Solve.modifies(self, c)
+
+    def modifies(self, c):
+        return Solve.modifies(self, c)
+
+    def ensures(self, c):
+        return Solve.ensures(self, c)
+
+
+# ---------------------------------------------------------------------------
+# _create_schedule: body
+# ---------------------------------------------------------------------------
+def _us(h, s):
+    pos = lambda x: z3.Select(h.get("$$us_pos", s), x)  # noqa: E731
+    opat = lambda r, t: z3.Select(h.get("$$us_op", r), t)  # noqa: E731
+    return pos, opat
+
+
+def placed(h, hs, s, I, US, A0, upto):
+    """US[m] holds, in key order, one ScheduledOperation per operation of machine m among the first `upto` keys of the
+    variable map, starting at the solution value of its start variable; us_pos / us_op are each other's inverse"""
+    S = Sol(hs, s)
+    it = Inst(hs, I)
+    val = lambda v: V(hs, S.solver, v)  # noqa: E731
+    pos, opat = _us(h, s)
+    j, p, m, q = bv("j"), bv("p"), bv("m"), bv("q")
+    o = it.op(j, p)
+    row = lambda t: h.at(US, t)  # noqa: E731
+    x = h.at(row(m), q)
+    o2 = opat(row(m), q)
+    return z3.And(
+        h.len(US) == it.NM, US >= A0, US < h.alloc,
+        forall([m], imp(rng(m, 0, it.NM), z3.And(row(m) > US, row(m) < h.alloc, h.len(row(m)) >= 0)), patterns=[h.at(US, m)]),
+        forall([m, bv("m2")], imp(z3.And(rng(m, 0, it.NM), rng(bv("m2"), 0, it.NM), row(m) == row(bv("m2"))), m == bv("m2")),
+               patterns=[z3.MultiPattern(h.at(US, m), h.at(US, bv("m2")))]),
+        forall([j, p], imp(z3.And(rng(j, 0, it.J), rng(p, 0, it.L(j)), it.cumL(j) + p < upto), z3.And(
+            rng(pos(o), 0, h.len(row(mach0(hs, o)))), opat(row(mach0(hs, o)), pos(o)) == o)), patterns=[it.op(j, p)]),
+        forall([m, q], imp(z3.And(rng(m, 0, it.NM), rng(q, 0, h.len(row(m)))), z3.And(
+            it.is_op(o2), mach0(hs, o2) == m, pos(o2) == q, it.cumL(it.jid(o2)) + it.pos(o2) < upto,
+            x > US, x < h.alloc, h.get("operation", x) == o2, h.get("_machine_id", x) == m,
+            h.get("start_time", x) == val(S.sv(o2)))), patterns=[opat(row(m), q), h.at(row(m), q)]))
+
+
+def _cs_loops(self):
+    def l0(k):
+        h0, h, s, I = k.h0, k.h, k["self"], k["instance"]
+        return [("placed-so-far", placed(h, h0, s, I, k.v("unsorted_schedule"), h0.alloc, k.i)),
+                ("all-keys", k.n == h0.len(Sol(h0, s).keys))]
+
+    def mod(k):
+        US = k.envl["unsorted_schedule"].t
+        return Frame(fields={"$$us_pos": [k["self"]], "$$us_op": "ALL"}, lists=lambda l: l > US,
+                     alloc_objects=["operation", "start_time", "_machine_id", "$type", "$$us_op"], alloc_lists=True)
+    return {0: LoopSpec("for (operation, start_time) in operations_start.items()", l0, mod)}
+
+
+def _cs_ghost_after(self):
+    def appended(c, st):
+        h, s = st.heap, c["self"]
+        o = st.env["operation"].t
+        row = h.at(st.env["unsorted_schedule"], mach0(h, o))
+        n = h.len((row, "c"))
+        st.heap = h.put("$$us_pos", s, z3.Store(h.get("$$us_pos", s), o, n - 1)) \
+            .put("$$us_op", row, z3.Store(h.get("$$us_op", row), n - 1, o))
+
+    def sorted_done(c, st):
+        # witness of `every operation is somewhere in the schedule`: its index after sorting = inverse permutation of
+        # its index before
+        srt = st.aux.get("last_sort_rows")
+        if srt is None:
+            return
+        perm, inv, base = srt
+        h, s = st.heap, c["self"]
+        A = fresh("schpos", z3.ArraySort(I, I))
+        x = bv("sx")
+        pos, _ = _us(h, s)
+        st.assume(forall([x], z3.Select(A, x) == inv(mach0(h, x), pos(x)), patterns=[z3.Select(A, x)]),
+                  "ghost:position-after-sorting")
+        st.heap = h.put("$$sch_pos", s, A)
+    return {"unsorted_schedule[operation.machine_id].append(ScheduledOperation(operation, start_time, operation.machine_id))": appended,
+            "sorted_schedule = [sorted(scheduled_operation, key=lambda x: (x.start_time, x.end_time)) for scheduled_operation in "
+            "unsorted_schedule]": sorted_done}
+
+
+CreateSchedule.relevant_strict = {"loop0:inv-entry:placed-so-far": ["inst-refs", "inst-index-bound", "ghost-num-machines", "solver"]}
+CreateSchedule.loops = property(_cs_loops)
+CreateSchedule.ghost_after = property(_cs_ghost_after)
